@@ -20,6 +20,7 @@ func TestProp(t *testing.T) {
 	addLogs(r)
 	addLabels(r)
 	addProm(r)
+	addEngine(r)
 	addTraces(r)
 	addPortions(r)
 	addProf(r)
